@@ -260,6 +260,40 @@ def _item(it, symbolic=True):
     return tuple(out)
 
 
+def sled_items(n, seed):
+    """deterministic run of n short instructions (nop / const/4 / move / add-int/2addr, now and then an
+    if-eqz a few units ahead) — the bulk of a 'long method'; stored in a spec as {"sled": n, "seed": seed}"""
+    import random as _r
+    rng = _r.Random(seed)
+    out = []
+    for j in range(n):
+        t = rng.random()
+        if j % 97 == 50:
+            out.append(("if-eqz", rng.randrange(6), rng.choice((2, 3, 5))))
+        elif t < 0.5:
+            out.append(("nop",))
+        elif t < 0.75:
+            out.append(("const/4", rng.randrange(6), rng.randrange(-8, 8)))
+        elif t < 0.9:
+            out.append(("move", rng.randrange(6), rng.randrange(6)))
+        else:
+            out.append(("add-int/2addr", rng.randrange(6), rng.randrange(6)))
+    if sum(A.ins_units(i[0]) for i in out) % 2:
+        out.append(("nop",))                                   # keep the payload alignment of what follows
+    return out
+
+
+def asm_items(items, symbolic=True):
+    """spec items -> assemble() items (sleds expanded)"""
+    out = []
+    for it in items:
+        if isinstance(it, dict) and "sled" in it:
+            out += sled_items(it["sled"], it["seed"])
+        else:
+            out.append(_item(it, symbolic))
+    return out
+
+
 PLAIN = [
     lambda r: ["nop"],
     lambda r: ["const/4", r.randrange(6), r.randrange(-8, 8)],
@@ -418,7 +452,7 @@ def build_dex(specs, shared_handlers=False, leb_pad=0):
     methods = [A.Method("callee", "V", (), 0x9, A.Code(1, 0, 0, [("return-void",)]))]
     for k, sp in enumerate(specs):
         methods.append(A.Method(f"m{k}", "V", (), 0x9, A.Code(
-            8, 0, 2, [_item(i) for i in sp["items"]],
+            8, 0, 2, asm_items(sp["items"]),
             tries=[A.Try(t[0], t[1], [(h[0], h[1]) for h in t[2]], t[3]) for t in sp["tries"]])))
     b.add_class(GEN_CLASS, static_fields=[A.Field("X", "I", 0x9)], direct_methods=methods)
     data = b.build(shared_handlers=shared_handlers, leb_pad=leb_pad)
@@ -442,7 +476,32 @@ def retarget(sp, rng):
     return out
 
 
-def gen_history(rng):
+def make_long(sp, rng):
+    """a generated method behind a sled of 520-2000 short instructions (>= 512 instructions in all), try
+    table shifted along, and at least one payload reference that is NOT an instruction boundary: inside the
+    payload's data, one unit short, past the end of the code, before its start"""
+    n = rng.choice((520, 600, 800, 1200, 2000))
+    sled = {"sled": n, "seed": rng.randrange(1 << 30)}
+    shift = sum(A.ins_units(i[0]) for i in sled_items(n, sled["seed"]))
+    items = [sled] + json.loads(json.dumps(sp["items"]))
+    tries = [[a + shift, c, [[t, h + shift] for t, h in hs], None if ca is None else ca + shift]
+             for a, c, hs, ca in sp["tries"]]
+    _, offs = A.assemble(asm_items(items, symbolic=False))
+    # item_offsets are per assemble() item: the sled occupies the first len(sled_items) entries
+    nsled = len(sled_items(n, sled["seed"]))
+    users = [(k, offs.item_offsets[nsled + k - 1]) for k, it in enumerate(items)
+             if isinstance(it, list) and it[0] in ("packed-switch", "sparse-switch", "fill-array-data")]
+    lab = [(k, at) for k, at in users if isinstance(items[k][2], str)]
+    for k, at in (rng.sample(lab, min(len(lab), rng.choice((1, 1, 2)))) if lab else users[:1]):
+        it = items[k]
+        base = offs[it[2]] if isinstance(it[2], str) else at + it[2]
+        how = rng.randrange(5)
+        tgt = (base + 1, base + 3, base - 1, offs.size_units + rng.choice((0, 1, 4)), -1 - rng.randrange(3))[how]
+        items[k] = [it[0], it[1], tgt - at]
+    return {"items": items, "tries": tries}
+
+
+def gen_history(rng, long=False):
     """three method bodies (A, B, A with other payload targets) and a sequence of edits of one of them:
     step = [source body 0..2, number of nops prepended, direct lookups before the edit (bool)]"""
     def one():
@@ -450,8 +509,8 @@ def gen_history(rng):
             try:
                 sp = gen_spec(rng)
                 if has_payload_user(sp):
-                    A.assemble([_item(i, symbolic=False) for i in sp["items"]])
-                    return sp
+                    A.assemble(asm_items(sp["items"], symbolic=False))
+                    return make_long(sp, rng) if long else sp
             except ValueError:
                 continue
     a, b = one(), one()
@@ -638,6 +697,8 @@ def run(ck: Check, prop: str, pins=None):
                "and all methods with code of the shipped DEX files (quick: *.dex + 2 APKs; thorough: every APK). "
                "histories: one EncodedMethod analysed, edited 1-5 times through set_instructions (nops prepended, "
                "another body, other payload targets, back to the original) and analysed afresh after every edit. "
+               "long methods: 12 methods (+3 histories) of 520-2000 instructions with on-boundary, shared, misaligned "
+               "and off-boundary payload references, in every run. "
                "distinct = distinct request line of a method with more than one block or a try table")
     # corpus first
     for name, c in corpus_cases(prop):
@@ -648,13 +709,33 @@ def run(ck: Check, prop: str, pins=None):
     for _ in range(nhist):
         r.run_history(gen_history(ck.rng))
     n += r.flush(drv)
+    # long methods (>= 512 instructions): always, also in quick — a handful is enough, the driver is fast
+    nlong, nlonghist = ((60, 12) if big else (12, 3)) if ck.quick else (300, 60)
+    specs = []
+    while len(specs) < nlong:
+        try:
+            sp = gen_spec(ck.rng)
+            if not has_payload_user(sp):
+                continue
+            sp = make_long(sp, ck.rng)
+            A.assemble(asm_items(sp["items"], symbolic=False))
+            specs.append(sp)
+        except ValueError:
+            continue
+    for k in range(0, nlong, 6):
+        r.run_specs(specs[k:k + 6], ck.rng.random() < 0.5, ck.rng.choice((0, 0, 1)))
+    for _ in range(nlonghist):
+        r.run_history(gen_history(ck.rng, long=True))
+    r.dist["long_methods"] = nlong
+    r.dist["long_histories"] = nlonghist
+    n += r.flush(drv)
     per = 50
     for _ in range(ngen // per):
         specs = []
         while len(specs) < per:
             try:
                 sp = gen_spec(ck.rng)
-                A.assemble([_item(i, symbolic=False) for i in sp["items"]])
+                A.assemble(asm_items(sp["items"], symbolic=False))
                 specs.append(sp)
             except ValueError:
                 continue
